@@ -17,6 +17,7 @@ Proof.
   apply bind_Ok_inv in H. destruct H as (d1 & _ & H).
   destruct (emit_labels _ pool_empty []) as [tp1 rl].
   apply bind_Ok_inv in H. destruct H as ([[d2 tp2] g] & _ & H).
+  apply bind_Ok_inv in H. destruct H as ([] & _ & H).   (* the 32-bit guard of fix 524d15f passed *)
   apply bind_Ok_inv in H. destruct H as (dsz & Hd & H).
   change (lenN []) with 0 in Hd. change (trunc_w 32 0) with 0 in Hd.
   assert (Et : trunc_w 32 (size a) = size a) by (unfold trunc_w, maxw; apply N.mod_small; exact Hs).
